@@ -157,6 +157,9 @@ def gen_cases(rng, per_form):
         for _ in range(per_form):
             params, r = fc.sample_params(name, rng)
             cases.append({'form': name, 'r': r, 'params': params})
+    # polynomials of high order (12 and 15 coefficients): every coefficient counts, whatever their number
+    cases.append({'form': 'polynomial', 'r': 2.0, 'params': [0.75, -1.5, 2.25, -0.5, 0.125, 1.0, -0.375, 0.0625, 0.25, -0.03125, 0.5, -0.21875]})
+    cases.append({'form': 'polynomial', 'r': -1.25, 'params': [1.0, 0.5, -0.25, 0.125, 2.0, -1.0, 0.5, 0.25, -0.125, 1.5, -0.75, 0.375, 0.0625, -0.5, 0.25]})
     return cases
 
 def tol_for(v):
